@@ -184,6 +184,10 @@ class Stream(ModelMixin["Stream"], Base):
             mf.delete_file()
             mf.delete()
         blob = Blob.get_one(filename=filename.name)
+        if blob and blob.mediafile is not None and blob.mediafile.name != filename.stem:
+            # e.g. the file that editing media file "x" stored as x_01.mp4
+            raise ValueError(
+                f'A file called "{filename.name}" already holds the media of "{blob.mediafile.name}"')
         if blob:
             blob.delete_file(upload_folder)
             blob.delete()
